@@ -208,7 +208,7 @@ const (
 	rungCombo     = 5
 )
 
-type matcherJ struct{ Label, Op, Value string }
+type matcherJ struct{ Metric, Label, Op, Value string }
 
 type exprGen struct {
 	t        *rapid.T
@@ -242,7 +242,7 @@ var reValues = map[string][]string{
 	"zone": {"x|y", ".+", ".*", "x", "x|", "", "[^x]"},
 }
 
-func (g *exprGen) matcher() string {
+func (g *exprGen) matcher(metric string) string {
 	t := g.t
 	lbl := rapid.SampledFrom([]string{"job", "inst", "zone"}).Draw(t, "mlabel")
 	op := rapid.SampledFrom([]string{"=", "!=", "=~", "!~"}).Draw(t, "mop")
@@ -256,7 +256,7 @@ func (g *exprGen) matcher() string {
 	if v == "" {
 		g.feat("matcher:" + op + "empty")
 	}
-	g.matchers = append(g.matchers, matcherJ{lbl, op, v})
+	g.matchers = append(g.matchers, matcherJ{metric, lbl, op, v})
 	return lbl + op + `"` + v + `"`
 }
 
@@ -276,7 +276,7 @@ func (g *exprGen) selector() string {
 	nm := rapid.SampledFrom([]int{0, 0, 1, 1, 1, 2}).Draw(t, "nmatchers")
 	var ms []string
 	for i := 0; i < nm; i++ {
-		ms = append(ms, g.matcher())
+		ms = append(ms, g.matcher(m))
 	}
 	g.feat("sel")
 	if rapid.IntRange(0, 19).Draw(t, "nameform") == 0 {
